@@ -399,6 +399,19 @@ class Methods:
                         out.append(s.chars[i])
                         i += 1
                 return simp(FixedStr(out))
+            if isinstance(a, FixedStr) and len(a) >= 1 and isinstance(b, FixedStr) and (len(args) < 3 or args[2] is None or args[2] == -1):
+                # a pattern of known length with symbolic characters: left-to-right scan, non-overlapping (str.replace)
+                out = []
+                i = 0
+                m = len(a)
+                while i < n:
+                    if i + m <= n and ctx.branch(str_eq(FixedStr(s.chars[i:i + m]), a)):
+                        out += b.chars
+                        i += m
+                    else:
+                        out.append(s.chars[i])
+                        i += 1
+                return simp(FixedStr(out))
             raise Unsupported('replace of a symbolic pattern')
         if name in ('split', 'rsplit'):
             sep = args[0] if args else None
